@@ -15,6 +15,7 @@ type c16entry struct {
 	Port   int
 	URL    string
 	Key    string // simnet key of its address
+	ByName bool   // the upstream URL names the host; the certificate is valid for that name only
 }
 
 func c16healths(kind string) []string {
@@ -105,11 +106,25 @@ func scenarioC16(r *Run) {
 	kinds := []string{"tcp", "tcp", "unix", "tcp+tls", "ws", "udp", "udp+pass"}
 	entries := make([]*c16entry, ne)
 	cfg := WorldCfg{Carrier: "tcp", ClientSecure: secure, ClientInsecure: true}
+	// In one run of four the client verifies server certificates, the upstreams are named differently (some
+	// by host name, some by IP literal) and each certificate is valid for its own entry's name only: whatever
+	// the client learnt while talking to one entry must not be applied to another.
+	verify := c.Chance(1, 4, "client-verifies")
+	if verify {
+		cfg.ClientInsecure = false
+		cfg.ClientCA = "good"
+		kinds = []string{"tcp", "tcp+tls", "tcp+tls", "ws", "udp"}
+		r.Count("client_verifies_certificates")
+	}
+	r.Info["client_verifies"] = verify
 	firstOK := -1
 	for i := range entries {
 		e := &c16entry{Kind: kinds[c.Pick(len(kinds), "entry-kind")], Port: 9100 + 10*i}
 		hs := c16healths(e.Kind)
 		e.Health = hs[c.Pick(len(hs), "entry-health")]
+		if verify && c.Chance(1, 2, "entry-healthy") {
+			e.Health = "healthy"
+		}
 		if e.Health == "insecure" && !secure {
 			e.Health = "healthy"
 		}
@@ -120,6 +135,15 @@ func scenarioC16(r *Run) {
 		}
 		if e.Kind == "tcp+tls" {
 			sub.ServerCert = "good"
+		}
+		if verify && sub.ServerCert != "" {
+			if c.Chance(1, 2, "entry-by-name") {
+				sub.UseHostName = true
+				sub.ServerCert = "good-name"
+				e.ByName = true
+			} else {
+				sub.ServerCert = "good-ip"
+			}
 		}
 		entry, url, _ := serverEntry(&sub, e.Kind, e.Port)
 		e.URL = url
@@ -155,7 +179,11 @@ func scenarioC16(r *Run) {
 	cfg.Listeners = []LsnCfg{lsn}
 	var desc []string
 	for _, e := range entries {
-		desc = append(desc, e.Kind+":"+e.Health)
+		d := e.Kind + ":" + e.Health
+		if verify && e.ByName {
+			d += ":by-name"
+		}
+		desc = append(desc, d)
 	}
 	r.Info["upstreams"] = desc
 	r.Info["client_requires_security"] = secure
@@ -238,7 +266,7 @@ func scenarioC16(r *Run) {
 	cs.KeySpan = 16
 	pol := &NetPolicy{ChunkBias: c.Pick(2, "chunk-bias")}
 	extra := func() []Ev { return append(cs.OpenEv(nil), cs.PeerEvents()...) }
-	settled := func(cs *ConnSet, conns []*LConn) func() bool {
+	settled := func(cs *ConnSet, conns []*LConn, expectTarget int) func() bool {
 		return func() bool {
 			cs.Assign()
 			if !cs.AllOpened() {
@@ -269,7 +297,7 @@ func scenarioC16(r *Run) {
 		r.Count("connections_opened_together")
 	}
 	t0 := r.SimElapsed()
-	out := r.Drive(pol, settled(cs, conns), extra, allow+30*time.Second, allow+10*time.Minute)
+	out := r.Drive(pol, settled(cs, conns, expectTarget), extra, allow+30*time.Second, allow+10*time.Minute)
 	r.YieldsOff()
 	if out == Aborted {
 		return
@@ -410,6 +438,42 @@ func scenarioC16(r *Run) {
 			r.RunFor(time.Duration(1+c.Pick(20, "wait-s")) * time.Second)
 		}
 	}
+	// Health changes over time: in one history of three the upstream that carried the session is gone for
+	// good after the loss (it refuses connections from now on), so the next local connection has to go down
+	// the list again and settle on the next healthy entry - or be refused when there is none.
+	now, allow2, expect2 := sel, allow, expectTarget
+	if !isUDPKind(sel.Kind) && c.Chance(1, 3, "selected-upstream-gone") {
+		r.Net.SetDialFate(map[bool]string{true: "unix", false: "tcp"}[sel.Kind == "unix"], strings.SplitN(sel.Key, "|", 2)[1], 1) // 1 = refuse
+		r.Count("selected_upstream_gone_after_loss")
+		r.Info["selected_upstream_gone"] = true
+		now, expect2 = nil, -1
+		allow2 = 60 * time.Second
+		unb := false
+		for i, e := range entries {
+			if i == firstOK {
+				allow2 += 5 * time.Second
+				continue
+			}
+			if e.Health == "healthy" {
+				now, expect2 = e, 0
+				break
+			}
+			switch e.Health {
+			case "blackhole":
+				allow2 += 130 * time.Second
+			case "silent", "stalls-in-starttls", "silent-after-announce":
+				allow2 += 120 * time.Second
+				unb = true
+			default:
+				allow2 += 5 * time.Second
+			}
+		}
+		_ = unb
+		if now == nil {
+			allow2 *= 4
+		}
+	}
+	allow = allow2
 	conns2 := mk(k, 1+c.Pick(2, "after-loss-connections"))
 	cs2 := NewConnSet(r, w, "app", conns2)
 	cs2.Cross = true
@@ -420,13 +484,39 @@ func scenarioC16(r *Run) {
 		r.YieldsOn("yield-seed-2")
 	}
 	t1 := r.SimElapsed()
-	out = r.Drive(pol, settled(cs2, conns2), extra2, allow+30*time.Second, allow+10*time.Minute)
+	if now != sel {
+		before = 0
+		if now != nil {
+			before = dials(now)
+		}
+	}
+	out = r.Drive(pol, settled(cs2, conns2, expect2), extra2, allow+30*time.Second, allow+10*time.Minute)
 	r.YieldsOff()
 	if out == Aborted {
 		return
 	}
 	took = r.SimElapsed() - t1
 	sig2 := fmt.Sprintf("loss=%s kind=%s", loss, strings.Replace(sel.Kind, "+", "_", -1))
+	if now != sel {
+		sig2 += " selected-upstream-gone"
+		if now != nil {
+			sig2 += " next=" + strings.Replace(now.Kind, "+", "_", -1)
+		}
+	}
+	if now == nil {
+		if out != GoalMet {
+			r.FailSig("not-settled", sig2, "%s after %v: no upstream is usable any more, yet the new local connections were not refused within %v: %v", out, took, allow, cs2.Describe())
+			return
+		}
+		for i, lc := range conns2 {
+			if lc.Tp != nil {
+				r.FailSig("wrong-endpoint", sig2, "new local connection %d reached a target although no upstream is usable any more", i)
+				return
+			}
+		}
+		r.Count("refused_after_every_upstream_gone")
+		return
+	}
 	for i, lc := range conns2 {
 		if !cs2.Complete(lc, false) {
 			r.FailSig("no-reconnect", sig2, "%s after %v: after %s of the %s session, new local connection %d was not served: %v", out, took, loss, sel.Kind, i, cs2.Describe())
@@ -437,9 +527,15 @@ func scenarioC16(r *Run) {
 		r.FailSig("slow-reconnect", sig2, "re-establishing after %s took %v", loss, took)
 		return
 	}
-	if !isUDPKind(sel.Kind) && dials(sel) != before+1 {
-		r.FailSig("reconnect-count", sig2, "after %s: %d new physical connections to the selected upstream (expected exactly 1)", loss, dials(sel)-before)
+	if !isUDPKind(now.Kind) && dials(now) != before+1 {
+		r.FailSig("reconnect-count", sig2, "after %s: %d new physical connections to the selected upstream (expected exactly 1)", loss, dials(now)-before)
 		return
+	}
+	if now != sel {
+		r.Count("failover_after_selected_upstream_gone")
+		if verify {
+			r.Count("failover_to_differently_named_upstream")
+		}
 	}
 	r.Count("reconnect_ok")
 }
